@@ -236,6 +236,11 @@ func toABCI(evs sdk.Events) []abci.Event { return evs.ToABCIEvents() }
 
 // Deliver signs msgs with the chain's sender key and runs them through BaseApp.Deliver in a block of their own.
 func (w *World) Deliver(c *xibctesting.TestChain, msgs ...sdk.Msg) (*sdk.Result, error) {
+	if c.CurrentHeader.Time.Before(w.Coord.CurrentTime) {
+		// the chain's open block is older than the other chains' latest headers: close it, so that the block of
+		// this transaction carries the current time (light clients reject headers from the future)
+		w.Commit(c)
+	}
 	acc := c.App.AccountKeeper.GetAccount(c.GetContext(), c.SenderAcc)
 	tx, err := helpers.GenTx(c.TxConfig, msgs, sdk.Coins{sdk.NewInt64Coin(sdk.DefaultBondDenom, 0)}, helpers.DefaultGenTxGas*4,
 		c.ChainID, []uint64{acc.GetAccountNumber()}, []uint64{acc.GetSequence()}, c.SenderPrivKey)
